@@ -453,6 +453,8 @@ def families(tier):
     fams += [("main1_body2", lambda: gen_with_body(1, 2, reduced=False), "graph"), ("main1_body3", lambda: gen_with_body(1, 3), "graph"),
              ("main1_body2_function", lambda: gen_with_body(1, 2, reduced=False), "function"), ("main1_body2_pass", lambda: gen_with_body(1, 2, reduced=False), "pass"),
              ("deep1", lambda: gen_deep(1), "graph"), ("dangling_consumer", gen_dangling, "graph"),
+             # two nesting levels through the other two entry points as well
+             ("deep1_pass", lambda: gen_deep(1), "pass"), ("deep2_pass", lambda: gen_deep(2), "pass"), ("deep1_function", lambda: gen_deep(1), "function"),
              # four outer nodes and a one-node body, initial order as listed (stability of an order that is already valid)
              ("main4_body1_listed_order", lambda: (dict(st, identity_only=True) for st in gen_with_body(4, 1)), "graph")]
     if tier == "thorough":
